@@ -62,6 +62,21 @@ type VStruct struct {
 	Concrete bool
 	// Keys: for Name == "map", the key values in insertion order
 	Keys []Val
+	// Open: for a map modelled outside concrete mode, a store under a key that is not a constant happened: from then on
+	// nothing is known about its contents
+	Open bool
+}
+
+// constKey: is v a value whose identity as a map key is fully known (constant string, integer, boolean)?
+func constKey(v Val) bool {
+	switch x := v.(type) {
+	case VStr:
+		_, ok := x.isConst()
+		return ok
+	case VInt, VBool:
+		return true
+	}
+	return false
 }
 type VFunc struct {
 	Lit  *ast.FuncLit
@@ -857,6 +872,9 @@ func (r *Run) assign(s *ast.AssignStmt, env *Env) {
 			}
 			if m, ok := r.eval(l.X, env).(*VStruct); ok && m.Name == "map" {
 				kv := r.eval(l.Index, env)
+				if !m.Concrete && !constKey(kv) {
+					m.Open = true
+				}
 				if _, had := m.Fields[kv.key()]; !had {
 					m.Keys = append(m.Keys, kv)
 				}
@@ -899,7 +917,7 @@ func (r *Run) evalMulti(e ast.Expr, env *Env, n int) []Val {
 		}
 		return out
 	case *ast.IndexExpr: // v, ok := m[k]
-		if m, ok := r.eval(x.X, env).(*VStruct); ok && m.Name == "map" {
+		if m, ok := r.eval(x.X, env).(*VStruct); ok && m.Name == "map" && (m.Concrete || !m.Open && constKey(r.eval(x.Index, env))) {
 			kv := r.eval(x.Index, env)
 			if v, ok := m.Fields[kv.key()]; ok {
 				return []Val{v, VBool{B: true}}
@@ -990,7 +1008,7 @@ func (r *Run) rangeStmt(s *ast.RangeStmt, env *Env) ctl {
 			elemT = types.Typ[types.Rune]
 		}
 	}
-	if m, ok := xv.(*VStruct); ok && m.Name == "map" {
+	if m, ok := xv.(*VStruct); ok && m.Name == "map" && (m.Concrete || !m.Open) {
 		for _, kv := range append([]Val{}, m.Keys...) {
 			e2 := newEnv(env)
 			if id, ok := s.Key.(*ast.Ident); ok && id.Name != "_" {
@@ -1511,7 +1529,7 @@ func (r *Run) evalRaw(e ast.Expr, env *Env) Val {
 				return l.Elems[iv.N]
 			}
 		}
-		if m, ok := base.(*VStruct); ok && m.Name == "map" {
+		if m, ok := base.(*VStruct); ok && m.Name == "map" && (m.Concrete || !m.Open && constKey(idx)) {
 			if v, ok := m.Fields[idx.key()]; ok {
 				return v
 			}
@@ -2073,7 +2091,7 @@ func (r *Run) call(call *ast.CallExpr, env *Env) Val {
 			// maps.Keys / maps.Values of a concrete map value: the list of its keys / values (the iterator forms are
 			// only ever handed to slices.Sorted / slices.Collect or ranged over)
 			if (fn.Name() == "Keys" || fn.Name() == "Values") && len(call.Args) == 1 {
-				if m, ok := r.eval(call.Args[0], env).(*VStruct); ok && m.Name == "map" {
+				if m, ok := r.eval(call.Args[0], env).(*VStruct); ok && m.Name == "map" && (m.Concrete || !m.Open) {
 					l := VList{Key: "mapkeys", Elems: []Val{}}
 					for _, k := range m.Keys {
 						if fn.Name() == "Keys" {
@@ -2725,7 +2743,7 @@ func (r *Run) builtin(name string, call *ast.CallExpr, env *Env, rt types.Type) 
 		case VNil:
 			return VInt{N: 0}
 		case *VStruct:
-			if x.Name == "map" {
+			if x.Name == "map" && (x.Concrete || !x.Open) {
 				return VInt{N: int64(len(x.Keys))}
 			}
 		case VList:
@@ -2800,6 +2818,16 @@ func (r *Run) builtin(name string, call *ast.CallExpr, env *Env, rt types.Type) 
 		}
 		return VSym{Key: "append(" + argKeys(args) + ")", Typ: rt}
 	case "make", "new":
+		if !r.W.Concrete && r.FollowSlices && name == "make" && rt != nil {
+			// a local lookup table over constant keys (first index of each path segment …): modelled exactly as long as
+			// every key stored is a constant; an unknown key opens it (see VStruct.Open)
+			if mt, isMap := rt.Underlying().(*types.Map); isMap {
+				if b, ok := mt.Key().Underlying().(*types.Basic); ok && b.Info()&(types.IsString|types.IsInteger|types.IsBoolean) != 0 {
+					r.structID++
+					return &VStruct{Name: "map", Fields: map[string]Val{}, id: r.structID}
+				}
+			}
+		}
 		if r.W.Concrete && name == "make" && rt != nil {
 			switch rt.Underlying().(type) {
 			case *types.Map:
